@@ -584,8 +584,16 @@ def value_oracle(pops):
 
 
 def run_replay(lines):
-    p = subprocess.run([REPLAY_BIN], input="\n".join(lines) + "\n", capture_output=True,
-                       text=True, timeout=120)
+    import time
+    for attempt in range(5):
+        try:
+            p = subprocess.run([REPLAY_BIN], input="\n".join(lines) + "\n", capture_output=True,
+                               text=True, timeout=120)
+            break
+        except (PermissionError, OSError):        # binary being replaced by a concurrent build
+            if attempt == 4:
+                raise
+            time.sleep(1.0)
     return p.returncode, p.stdout.splitlines(), p.stderr
 
 
